@@ -833,6 +833,10 @@ func (t *Tr) finish() {
 	ct := t.ct
 	if ct != nil {
 		for k, e := range ct.Ensures {
+			if e.Assumed {
+				t.trusted["assumed postcondition of "+ct.Key+" (not proved for its body): "+e.Text] = true
+				continue
+			}
 			var parts []Term
 			failed := false
 			for _, r := range t.rets {
